@@ -79,6 +79,8 @@ def run(tier, seed, model_ok, spec_ok, replay=None):
     for _ in range(n):
         doc = g.document(4, 4)
         pt = pg.path(doc, mods_p=0.85)
+        if pt.mods and g.r.random() < 0.3:
+            pt.warm = (copy_value(doc),)     # get_data is called on the path before the modifiers are applied to it
         entry = g.r.choice(["path_raw", "path_data", "data_get_path", "bound_source"])
         c = c03.make_case(pt, doc, entry, g.r.random() < 0.6)
         if c:
